@@ -26,6 +26,8 @@ import (
 //	    registered on that path; functions that intentionally return holding a lock are listed by name
 //	G3  a struct field whose address is passed to sync/atomic anywhere in the package is never read or written
 //	    plainly outside construction
+//	G4  storage given back to a pool is not returned or stored by the function that releases it (a deferred release
+//	    counts for every return); followed through method results, slices, conversions that alias and spilled results
 //
 // Exceptions are frozen tables (one line of reason each); the discovery mode (VERIF_GENERIC_DISCOVER=1) prints what the
 // rules would report over everything loaded and is a debugging aid only.
@@ -488,6 +490,24 @@ func runGeneric(c *Ctx, spec *PropSpec) {
 		c.Fail(spec.ID+".G3", ord.next(f.fn, "atomic-field-plain-access:"+f.af.field), f.pos, fmt.Sprintf("%s.%s is accessed with sync/atomic elsewhere but %s plainly in %s: a data race on a word the exactly-once / accounting guarantees are built on", f.af.typ, f.af.field, verb, f.fn.Name()))
 	}
 	c.Pass(spec.ID+".G3", strings.Join(pkgs, ",")+":atomic-fields", 0, fmt.Sprintf("%d atomic fields, %d accesses judged", nf, na))
+	// G4
+	c.Rule(spec.ID+".G4", "storage given back to a pool (sync.Pool.Put, buffer.PutIoBuffer, buffer.PutBytes) is not returned or stored by the releasing function", 1)
+	nrel := 0
+	for _, fn := range fns {
+		forEachInstr(fn, false, func(_ *ssa.Function, in ssa.Instruction) {
+			if ci, ok := in.(ssa.CallInstruction); ok && releaseArg(ci.Common()) != nil {
+				nrel++
+			}
+		})
+		if _, ok := pooledExceptions[fn.String()]; ok {
+			continue
+		}
+		ord := ordCounter{}
+		for _, f := range pooledEscapes(fn) {
+			c.Fail(spec.ID+".G4", ord.next(fn, "pooled-storage-escapes"), f.pos, fmt.Sprintf("%s gives an object back to a pool and storage reachable from it is %s: the next user of the pool overwrites bytes the caller still holds (a reply, a dump, a frame changes under its reader's hands - material of one exchange ends up in another)", fn.Name(), f.what))
+		}
+	}
+	c.Pass(spec.ID+".G4", strings.Join(pkgs, ",")+":pool-releases", 0, fmt.Sprintf("%d releases to a pool judged", nrel))
 }
 
 func discoverGeneric(c *Ctx) {
@@ -504,7 +524,151 @@ func discoverGeneric(c *Ctx) {
 	for _, f := range findings {
 		fmt.Fprintf(os.Stderr, "G3 %s  %s.%s@%s  write=%v\n", shortPos(c, f.pos), f.af.typ, f.af.field, f.fn.Name(), f.wr)
 	}
-	lv := 0
-	_ = lv
-	_ = types.Typ
+	for _, fn := range fns {
+		for _, f := range pooledEscapes(fn) {
+			fmt.Fprintf(os.Stderr, "G4 %s  %s  [%s]\n", shortPos(c, f.pos), fn.String(), f.what)
+		}
+	}
 }
+
+// ---------------------------------------------------------------------------------------------
+// G4 pooled storage does not outlive its release
+
+// isRelease: the call gives its argument back to a pool.
+func releaseArg(cc *ssa.CallCommon) ssa.Value {
+	f := cc.StaticCallee()
+	if f == nil {
+		return nil
+	}
+	switch {
+	case f.Name() == "Put" && f.Signature.Recv() != nil && f.Signature.Recv().Type().String() == "*sync.Pool" && len(cc.Args) == 2:
+		return cc.Args[1]
+	case f.Pkg != nil && f.Pkg.Pkg.Path() == "mosn.io/pkg/buffer" && (f.Name() == "PutIoBuffer" || f.Name() == "PutBytes") && len(cc.Args) == 1:
+		return cc.Args[0]
+	}
+	return nil
+}
+
+type g4Finding struct {
+	fn   *ssa.Function
+	pos  token.Pos
+	what string
+}
+
+// pooledEscapes: in fn, storage reachable from a value that is released to a pool leaves the function (returned, stored
+// in a field or global) at or after the release - a deferred release counts for every return.
+func pooledEscapes(fn *ssa.Function) []g4Finding {
+	var out []g4Finding
+	type rel struct {
+		in       ssa.Instruction
+		v        ssa.Value
+		deferred bool
+	}
+	var rels []rel
+	forEachInstr(fn, false, func(_ *ssa.Function, in ssa.Instruction) {
+		ci, ok := in.(ssa.CallInstruction)
+		if !ok {
+			return
+		}
+		if v := releaseArg(ci.Common()); v != nil {
+			_, isDefer := in.(*ssa.Defer)
+			rels = append(rels, rel{in, v, isDefer})
+		}
+	})
+	for _, r := range rels {
+		// storage derived from the released object
+		derived := map[ssa.Value]bool{}
+		var mark func(v ssa.Value, d int)
+		mark = func(v ssa.Value, d int) {
+			if v == nil || derived[v] || d > 8 {
+				return
+			}
+			derived[v] = true
+			// aliases of the object itself (through interface conversions and loads of the same pointer)
+			switch x := v.(type) {
+			case *ssa.MakeInterface:
+				mark(x.X, d+1)
+			case *ssa.TypeAssert:
+				mark(x.X, d+1)
+			case *ssa.ChangeType:
+				mark(x.X, d+1)
+			case *ssa.Extract:
+				mark(x.Tuple, d+1)
+			case *ssa.UnOp:
+				if x.Op == token.MUL {
+					mark(x.X, d+1) // *bufp: the slice the pooled pointer refers to
+				}
+			}
+			for _, u := range refs(v) {
+				switch y := u.(type) {
+				case *ssa.MakeInterface, *ssa.TypeAssert, *ssa.ChangeType, *ssa.Slice, *ssa.Phi, *ssa.Extract:
+					mark(y.(ssa.Value), d+1)
+				case *ssa.UnOp:
+					if y.Op == token.MUL {
+						mark(y, d+1)
+					}
+				case *ssa.Convert:
+					// []byte -> string copies; string -> []byte copies
+					continue
+				case *ssa.Store:
+					// spilled into a local (a named or defer-spilled result): its loads carry the storage on
+					if al, ok := y.Addr.(*ssa.Alloc); ok && y.Val == v {
+						for _, lu := range refs(al) {
+							if ld, ok := lu.(*ssa.UnOp); ok && ld.Op == token.MUL {
+								mark(ld, d+1)
+							}
+						}
+					}
+				case *ssa.Call:
+					// a method of the pooled object, or a function given derived storage, returning slice/pointer storage
+					res := y.Type()
+					switch res.Underlying().(type) {
+					case *types.Slice, *types.Pointer:
+						mark(y, d+1)
+					}
+				}
+			}
+		}
+		mark(r.v, 0)
+		escapes := func(v ssa.Value) (ssa.Instruction, string) {
+			for _, u := range refs(v) {
+				switch y := u.(type) {
+				case *ssa.Return:
+					if r.deferred || existsPath(fn, r.in, func(x ssa.Instruction) bool { return x == ssa.Instruction(y) }, nil) != nil {
+						return y, "returned to the caller"
+					}
+				case *ssa.Store:
+					if y.Val != v {
+						continue
+					}
+					switch a := y.Addr.(type) {
+					case *ssa.FieldAddr:
+						if _, isAlloc := a.X.(*ssa.Alloc); isAlloc {
+							continue
+						}
+						return y, "stored in a field"
+					case *ssa.Global:
+						return y, "stored in a package variable"
+					}
+				}
+			}
+			return nil, ""
+		}
+		for v := range derived {
+			if _, isPtr := v.Type().Underlying().(*types.Slice); !isPtr {
+				if _, isP := v.Type().Underlying().(*types.Pointer); !isP {
+					if _, isI := v.Type().Underlying().(*types.Interface); !isI {
+						continue
+					}
+				}
+			}
+			if at, how := escapes(v); at != nil {
+				out = append(out, g4Finding{fn, nearestPos(at), how})
+				break
+			}
+		}
+	}
+	return out
+}
+
+var pooledExceptions = map[string]string{}
